@@ -528,6 +528,7 @@ func cmdCheck(args []string) int {
 	bySolver := map[string]int{}
 	solverTime := 0.0
 	var samples []map[string]interface{}
+	var safetySamples []map[string]interface{}
 	var failed []*oblResult
 	single := 0
 	for _, r := range results {
@@ -582,8 +583,15 @@ func cmdCheck(args []string) int {
 			if agree < 2 {
 				single++
 			}
-			if len(samples) < 6 {
-				samples = append(samples, map[string]interface{}{"obligation": r.O.Name, "kind": r.O.Kind, "statement": r.O.Text, "solver": r.Res.Solver, "seconds": round3(r.Res.Seconds), "smt_bytes": len(r.Q)})
+			// samples: prefer the obligations that carry the property (postconditions, call
+			// preconditions, invariants, lemmas, structural ones) over routine safety checks
+			sm := map[string]interface{}{"obligation": r.O.Name, "kind": r.O.Kind, "statement": r.O.Text, "solver": r.Res.Solver, "seconds": round3(r.Res.Seconds), "smt_bytes": len(r.Q)}
+			if strings.HasPrefix(r.O.Kind, "safety") || r.O.Kind == "frame" {
+				if len(safetySamples) < 2 {
+					safetySamples = append(safetySamples, sm)
+				}
+			} else if len(samples) < 8 {
+				samples = append(samples, sm)
 			}
 			continue
 		}
@@ -673,7 +681,7 @@ func cmdCheck(args []string) int {
 	cov := map[string]interface{}{
 		"obligations":              nObl,
 		"discharged":               nDis,
-		"checker_cmd":              fmt.Sprintf("kbv check -prop %s -tier %s (z3 4.8.12, z3-new 5.1.0, cvc5 1.0.3 raced per obligation)", *prop, *tier),
+		"checker_cmd":              fmt.Sprintf("kbv check -prop %s -tier %s (z3 4.8.12, z3-new 5.1.0, z3-new 5.1.0 with smt.relevancy=0, cvc5 1.0.3 raced per obligation)", *prop, *tier),
 		"trusted_base":             trusted,
 		"explanation":              expl,
 		"functions_under_contract": funcsUnder,
@@ -688,6 +696,7 @@ func cmdCheck(args []string) int {
 	if *tier == "thorough" {
 		cov["single_solver_only"] = single
 	}
+	samples = append(samples, safetySamples...)
 	if len(samples) == 0 {
 		cov["samples"] = []string{"(no obligation discharged)"}
 	}
